@@ -17,7 +17,9 @@ EXCLUDED_OPS = {
 }
 
 
-def all_ops() -> Dict[str, Any]:
+def all_ops(composite: bool = False) -> Dict[str, Any]:
+    """atomic scheduling operations found by introspection; with composite=True also the
+    standard-library composite schedules (vlib/composites.py), keyed "std.<name>" """
     ops = {}
     for nm in dir(AS):
         x = getattr(AS, nm)
@@ -25,6 +27,11 @@ def all_ops() -> Dict[str, Any]:
             ops[x.__name__] = x
     for nm in EXCLUDED_OPS:
         ops.pop(nm, None)
+    if composite:
+        from .composites import composite_ops
+
+        for nm, (fn, _gen) in composite_ops().items():
+            ops[nm] = fn
     return ops
 
 
@@ -258,7 +265,21 @@ class Cands:
             return []
         if isinstance(ap, A.ExprCursorA):
             if ap.match_many:
-                return [[e] for e in self.exprs]
+                # singletons, plus pairs of textually equal expressions (the op documents "multiple
+                # instances of the same expression"; equal text does not imply equal variables)
+                pairs = []
+                by_txt = {}
+                for e in self.exprs:
+                    try:
+                        by_txt.setdefault(str(e._impl._node), []).append(e)
+                    except Exception:
+                        pass
+                for txt, es in by_txt.items():
+                    if len(es) >= 2 and not txt.replace(".", "").replace("-", "").isdigit():
+                        pairs.append([es[0], es[1]])
+                        if len(es) >= 3:
+                            pairs.append([es[0], es[-1]])
+                return pairs[:6] + [[e] for e in self.exprs]
             return list(self.exprs)
         if isinstance(ap, A.NestedForCursorA):
             return [s for s in st if isinstance(s, PC.ForCursor) and len(s.body()) == 1 and isinstance(s.body()[0], PC.ForCursor)]
